@@ -25,7 +25,9 @@ RULE = (
     "(objective of the retained result, reference best, reference last): fully observable, merged; BFS to closure, plus a "
     "no-merge run over all sequences up to a depth. Conformance: every model trace up to a depth is replayed through "
     "BasicOptimizer (scripted SciPy driver, evaluator producing the scripted objective/feasibility sequence) and "
-    "BasicOptimizer.results must be the model's best. Reference: list of feasible, non-NaN, tracked function results; "
+    "BasicOptimizer.results must be the model's best; likewise every sequence of rows (objective x feasibility, or a failed "
+    "row) is evaluated by REAL evaluator steps as one batch or split in two steps, with no / maximization / scaling "
+    "transforms, followed by real best and last trackers. Reference: list of feasible, non-NaN, tracked function results; "
     "best = minimum optimizer-domain objective (ties: any tied result), last = most recent. A state is trivial when the "
     "history contains no valid result (the tracker may then hold nothing or a NaN result)."
 )
@@ -371,6 +373,71 @@ def run_basic(trace: list[tuple[str, str]], tname: str) -> Judgement:
     return j
 
 
+# ------------------------------------------------------------------ real evaluator steps with batches and transforms
+
+STEP_ALPHABET = [(o, f) for o in ("0", "1", "2") for f in ("ok", "nonlinear")] + [("failed", "ok")]
+
+
+def run_steps(rows: list[tuple[str, str]], tname: str, split: bool) -> Judgement:
+    """The rows are evaluated by REAL evaluator steps (one batch, or the first row alone and the rest as a batch); real
+    'best' and 'last' trackers follow the step; events, transforms and result pairing are all the implementation's."""
+    from ropt.plan import OptimizerContext, Plan
+
+    j = Judgement()
+    sign = -1.0 if tname == "maximize" else 1.0
+    oscale = 2.0 if tname == "scaling" else 1.0
+
+    def fn(x: np.ndarray, r: int) -> Any:
+        o, f = rows[int(round(float(x[0]))) - 1]
+        value = math.nan if o == "failed" else sign * oscale * obj_value(o)
+        return [value, 1.0 if f == "nonlinear" else -1.0]
+
+    config = {
+        "variables": {"initial_values": [1.0]},
+        "nonlinear_constraints": {"lower_bounds": [-np.inf], "upper_bounds": [0.0]},
+    }
+    transforms = None
+    if tname == "maximize":
+        transforms = make_transforms(maximize=True)
+    elif tname == "scaling":
+        transforms = make_transforms(obj_scales=[2.0], con_scales=[4.0])
+    manager, _ = make_manager()
+    context = OptimizerContext(evaluator=TableEvaluator(fn, 1, 1), plugin_manager=manager)
+    plan = Plan(context)
+    step = plan.add_step("evaluator")
+    best = plan.add_handler("tracker", what="best", sources={step})
+    last = plan.add_handler("tracker", what="last", sources={step})
+    xs = np.array([[float(k + 1)] for k in range(len(rows))])
+    groups = [xs] if not split or len(rows) < 2 else [xs[:1], xs[1:]]
+    try:
+        for group in groups:
+            plan.run_step(step, config=config, transforms=transforms, variables=group if group.shape[0] > 1 else group[0])
+    except Exception as exc:  # noqa: BLE001
+        j.fail(f"steps-raised:{type(exc).__name__}", rows=rows, transforms=tname, message=str(exc)[:200])
+        return j
+    valid = [(k, obj_value(o)) for k, (o, f) in enumerate(rows) if o != "failed" and f == "ok"]
+    j.transitions = len(groups)
+    j.trivial = not valid
+    j.outcome = f"steps:{tname}:valid={min(len(valid), 2)}:split={split}"
+
+    def held_row(handler: Any) -> int | None:
+        res = plan.get(handler, "results")
+        return None if res is None else int(round(float(res.evaluations.variables[0]))) - 1
+
+    hb, hl = held_row(best), held_row(last)
+    if not valid:
+        if hb is not None or hl is not None:
+            j.fail("steps:holds-result-without-valid-history", rows=rows, best=hb, last=hl, transforms=tname)
+        return j
+    best_value = min(v for _, v in valid)
+    if hb is None or rows[hb][0] == "failed" or rows[hb][1] != "ok" or obj_value(rows[hb][0]) != best_value:
+        j.fail("steps:best-not-feasible-minimum" + (":maximize" if tname == "maximize" else ""), rows=rows, held=hb, expected=best_value,
+               transforms=tname, split=split)
+    if hl != valid[-1][0]:
+        j.fail("steps:last-not-most-recent-feasible", rows=rows, held=hl, expected=valid[-1][0], transforms=tname, split=split)
+    return j
+
+
 # ------------------------------------------------------------------ shards
 
 
@@ -389,6 +456,9 @@ def shards(tier: str, seed: int) -> list[dict[str, Any]]:
     for tname in ("none", "maximize"):
         for first in range(len(E2E_ALPHABET)):
             out.append({"kind": "basic", "transforms": tname, "len": elen, "first": first})
+    for tname in ("none", "maximize", "scaling"):
+        for first in range(len(STEP_ALPHABET)):
+            out.append({"kind": "steps", "transforms": tname, "len": elen, "first": first})
     return out
 
 
@@ -413,6 +483,16 @@ def run_shard(shard: dict[str, Any]) -> core.ShardResult:
                 j.fail(sig, **detail)
             rec.add((label, tuple(map(repr, hist))), {"kind": "tracker", "what": what, "tol": tol, "transforms": tname,
                                                       "history": [list(map(list_or, e)) for e in hist]}, j)
+    elif shard["kind"] == "steps":
+        tname = shard["transforms"]
+        first = STEP_ALPHABET[shard["first"]]
+        for rest in itertools.chain.from_iterable(itertools.product(STEP_ALPHABET, repeat=n) for n in range(shard["len"])):
+            rows = [first, *rest]
+            for split in (False, True):
+                if split and len(rows) < 2:
+                    continue
+                j = run_steps(rows, tname, split)
+                rec.add(("steps", tname, tuple(rows), split), {"kind": "steps", "transforms": tname, "rows": [list(r) for r in rows], "split": split}, j)
     else:
         tname = shard["transforms"]
         first = E2E_ALPHABET[shard["first"]]
@@ -426,6 +506,8 @@ def run_shard(shard: dict[str, Any]) -> core.ShardResult:
 def run_case(case: dict[str, Any]) -> Judgement:
     if case["kind"] == "basic":
         return run_basic([tuple(t) for t in case["trace"]], case["transforms"])
+    if case["kind"] == "steps":
+        return run_steps([tuple(r) for r in case["rows"]], case["transforms"], case["split"])
     hist = [tuple(tuple(x) if isinstance(x, list) else x for x in e) for e in case["history"]]  # ("reset",) stays a 1-tuple
     tol = case["tol"]
     b = build(hist, case["what"], tol, case["transforms"])
